@@ -3,6 +3,7 @@ package main
 // database/sql intercepts: the real store handlers run against the symbolic database.
 
 import (
+	"strings"
 	"go/types"
 
 	"golang.org/x/tools/go/ssa"
@@ -218,8 +219,36 @@ func init() {
 		return &TupleV{vs: []Value{ex.opaquePtr("sql.Tx", tx), nilErr()}}
 	}
 	intercepts["(*database/sql.DB).Exec"] = func(ex *Exec, fr *Frame, args []Value, site ssa.Instruction) Value {
+		// shutdown/reset: dropping the tables on the DB handle is recorded, not executed
+		if q, ok := args[1].(*Term); ok {
+			if qs, ok := q.StrVal(); ok && strings.HasPrefix(strings.TrimSpace(strings.ToUpper(qs)), "DROP TABLE") {
+				ex.W.tablesDropped++
+				if ex.choose(2, nil, "drop-fails") == 1 {
+					return &TupleV{vs: []Value{&IfaceV{}, ex.opaqueErr("sql: drop failed")}}
+				}
+				return &TupleV{vs: []Value{&IfaceV{typ: ex.P.errorStringType(), v: &OpaqueV{kind: "sql.Result"}}, nilErr()}}
+			}
+		}
 		ex.H.violation(ex, "tx-provenance", "statement executed directly on the DB handle instead of the transaction")
 		return &TupleV{vs: []Value{&IfaceV{}, ex.opaqueErr("sql: DB.Exec not modelled")}}
+	}
+	intercepts["(*database/sql.DB).Close"] = func(ex *Exec, fr *Frame, args []Value, site ssa.Instruction) Value {
+		ex.W.dbClosed++
+		return nilErr()
+	}
+	intercepts["os.Stat"] = func(ex *Exec, fr *Frame, args []Value, site ssa.Instruction) Value {
+		ex.H.noteStub("os.Stat / os.Remove: fail or succeed; removals are recorded")
+		if ex.choose(2, nil, "stat-fails") == 1 {
+			return &TupleV{vs: []Value{&IfaceV{}, ex.opaqueErr("stat: no such file")}}
+		}
+		return &TupleV{vs: []Value{&IfaceV{typ: ex.P.errorStringType(), v: &OpaqueV{kind: "os.FileInfo"}}, nilErr()}}
+	}
+	intercepts["os.Remove"] = func(ex *Exec, fr *Frame, args []Value, site ssa.Instruction) Value {
+		ex.W.removed = append(ex.W.removed, args[0].(*Term))
+		if ex.choose(2, nil, "remove-fails") == 1 {
+			return ex.opaqueErr("remove: failed")
+		}
+		return nilErr()
 	}
 	intercepts["(*database/sql.DB).Prepare"] = intercepts["(*database/sql.DB).Exec"]
 	intercepts["(*database/sql.DB).Query"] = intercepts["(*database/sql.DB).Exec"]
